@@ -23,6 +23,12 @@ SetsC == << <<1>>, <<1, 2>>, <<1, 2, 3>> >>
 SetsC2 == << <<1>>, <<1, 2>> >>
 \* (d) no change at all
 SetsD == << <<1, 2, 3, 4>> >>
+NK7  == <<1, 2, 3, 4, 5, 6, 7>>
+K9   == 1..9
+\* subsets of the nodes' keys: 3 of 4 -> 3 of 3 -> 4 of 5
+SetsT == << <<1, 2, 3, 4>>, <<1, 2, 3>>, <<2, 3, 4, 5, 6>> >>
+\* seven nodes: 5 of 7 -> 5 of 7 (two foreign keys) -> 4 of 5
+SetsU == << <<1, 2, 3, 4, 5, 6, 7>>, <<2, 3, 4, 5, 6, 8, 9>>, <<1, 3, 5, 7, 9>> >>
 SetsS == << <<1, 2, 3, 4>>, <<2, 3, 4, 5>>, <<3, 4, 5, 6>> >>
 
 NoAdv  == {}
